@@ -218,9 +218,13 @@ class C15(common.Spec):
                 ins = copt(o['inputs'], c_rinputs)
             except common.Unrepresentable:
                 ins = 'Some [("unresolved", inl (RBlk "?"))]'
-            return ("{| bo_name := %s; bo_inputs := %s; bo_conf := %s; bo_icon := %s; bo_ocon := %s |}"
+            sig = o.get('sig')
+            csig = 'None' if sig is None else "(Some %s)" % clist(
+                list(sig.items()), lambda kv: cpair(cstr(kv[0]), copt(kv[1], common.cnat)))
+            return ("{| bo_name := %s; bo_inputs := %s; bo_conf := %s; bo_icon := %s; bo_ocon := %s; "
+                    "bo_sig := %s |}"
                     % (cstr(o['name']), ins, copt(o['conf'], c_rinputs), clist(o['icon'], cstr),
-                       clist(o['ocon'], cstr)))
+                       clist(o['ocon'], cstr), csig))
 
         def nm(x):
             n, how, r = x
